@@ -5,13 +5,13 @@ import PqModel.Stats
     (`i32 4294967291` is -5; `f32 2143289344` is a NaN), byte strings as hex (`e` = empty string, `-` = empty list).
 
     c05.truncmin <hex> <n>            -> ok <hex>          truncateLargeMinByteArrayValue
-    c05.truncmax <hex> <n>            -> ok <hex>          truncateLargeMaxByteArrayValue (as the code is)
-    c05.truncmaxfixed <hex> <n>       -> ok <hex>          repaired variant
+    c05.truncmax <hex> <n>            -> ok <hex>          truncateLargeMaxByteArrayValue (repaired code)
+    c05.truncmax.beforefix <hex> <n>  -> ok <hex>          the code before the all-0xFF fix (regression)
     c05.bounds <kind> <values>        -> ok none | ok <min> <max>     Page.Bounds()
     c05.order <kind> <values>         -> ok <-1|0|1>       orderOf* (kind bool: values 0/1)
     c05.border <a> <b>                -> ok <0|1|2>        boundaryOrderOf
     c05.cmp <kind> <a> <b>            -> ok <-1|0|1>       Type.Compare
-    c05.index <kind> <lim> <pages>    -> ok <order> <mins> <maxs>     ColumnIndexer (pages: min:max or n)
+    c05.index <kind> <lim> <pages>    -> ok <order> <mins> <maxs>     ColumnIndexer (pages: min:max or n; also flba<size>, be128)
     c05.fold <kind> <pages>           -> ok none | ok <min> <max>     recordPageStats chunk fold
     kinds: i32 i64 u32 u64 f32 f64 | bytes flba dec (hex) | bool -/
 namespace Driver.Ops.C05
@@ -43,6 +43,8 @@ def bytesLt? : String → Option (List Nat → List Nat → Bool)
   | "dec" => some (fun a b => cmpDecimal a b < 0)
   | _ => none
 
+def bytesOrder (lt : List Nat → List Nat → Bool) : ColOrder (List Nat) := { lt := lt, ok := fun _ => true }
+
 def showPair {α} (f : α → String) : Option (α × α) → String
   | none => "ok none"
   | some (a, b) => s!"ok {f a} {f b}"
@@ -70,9 +72,9 @@ def handle (toks : List String) : Option String :=
     match parseHexN? v, parseNat? n with
     | some v, some n => s!"ok {hexN (truncMax v n)}"
     | _, _ => "bad-op"
-  | ["c05.truncmaxfixed", v, n] => some <|
+  | ["c05.truncmax.beforefix", v, n] => some <|
     match parseHexN? v, parseNat? n with
-    | some v, some n => s!"ok {hexN (truncMaxFixed v n)}"
+    | some v, some n => s!"ok {hexN (truncMax_before_fix v n)}"
     | _, _ => "bad-op"
   | ["c05.bounds", kind, vals] => some <|
     match numKind? kind with
@@ -133,6 +135,16 @@ def handle (toks : List String) : Option String :=
       match kind, parseNat? lim, parseList? (parsePage? parseHexN?) pages with
       | "bytes", some lim, some ps =>
         s!"ok {bytesIndexOrder lim ps} {showList hexN (bytesIndexMins lim ps)} {showList hexN (bytesIndexMaxs lim ps)}"
+      | kind, some lim, some ps =>
+        -- `flba<size>`: fixedLenByteArrayColumnIndexer; `be128`: the 16-byte indexer (never truncates)
+        let size? : Option (Nat × Nat) :=
+          if kind == "be128" then some (16, 0)
+          else if kind.startsWith "flba" then ((kind.drop 4).toNat?).map (fun n => (n, lim))
+          else none
+        match size? with
+        | some (size, lim) =>
+          s!"ok {flbaIndexOrder size lim ps} {showList hexN (flbaIndexMins size lim ps)} {showList hexN (flbaIndexMaxs size lim ps)}"
+        | none => "bad-op"
       | _, _, _ => "bad-op"
   | ["c05.fold", kind, pages] => some <|
     match numKind? kind with
@@ -140,11 +152,11 @@ def handle (toks : List String) : Option String :=
       match parseList? (parsePage? parseNat?) pages with
       | some ps =>
         let ps := ps.map (fun p => p.map (fun (a, b) => (BitVec.ofNat k.w a, BitVec.ofNat k.w b)))
-        showPair (showNat k.w) (foldChunk k.o.lt ps)
+        showPair (showNat k.w) (foldChunk k.o ps)
       | none => "bad-op"
     | none =>
       match bytesLt? kind, parseList? (parsePage? parseHexN?) pages with
-      | some lt, some ps => showPair hexN (foldChunk lt ps)
+      | some lt, some ps => showPair hexN (foldChunk (bytesOrder lt) ps)
       | _, _ => "bad-op"
   | _ => none
 
